@@ -267,7 +267,7 @@ pub fn run_generic(cx: &mut Ctx, fmt: Fmt) {
         });
     }
     // structured random
-    let n = cx.a.n(100_000, 1_000_000);
+    let n = cx.a.n(250_000, 1_500_000);
     let quick = cx.a.quick();
     for i in 0..n {
         cx.case("structured_random", |c| {
